@@ -234,11 +234,13 @@ pub fn generate(rng: &mut Rng, holder: usize, palette: &Palette) -> Content {
         3,  // 15 hole (inference site)
         2,  // 16 nested tuple with import
         2,  // 17 coverage: match with a missing arm (pure)
+        4,  // 18 several independent diagnostics / observations in one file (order matters)
+        4,  // 19 three imports
     ];
     if palette.allow_exec && !is_signature_slot {
-        weights.push(8); // 18 executable with literal code
-        weights.push(8); // 19 executable with imported code
-        weights.push(3); // 20 executable with a missing match arm
+        weights.push(8); // 20 executable with literal code
+        weights.push(8); // 21 executable with imported code
+        weights.push(3); // 22 executable with a missing match arm
     }
     match rng.weighted(&weights) {
         | 0 => Content::plain(&format!("int{literal}"), &literal.to_string(), Class::Closed),
@@ -316,8 +318,25 @@ pub fn generate(rng: &mut Rng, holder: usize, palette: &Palette) -> Content {
             "let x = (1, 2) in let (a, b) = x in (b, a)",
             Class::Closed,
         ),
-        | 18 => executable(&format!("exec{literal}"), &literal.to_string(), vec![], false),
-        | 19 => executable("exec-import", "@[import({0})] _", vec![import_of(rng, holder, palette)], false),
+        | 18 => match rng.below(5) {
+            | 0 => Content::plain("two-holes", "(_, (_, 3))", Class::Rejected),
+            | 1 => Content::plain(
+                "two-tyerrs",
+                "((\"a\" : @[intrinsic(i64)] _), ((\"b\" : @[intrinsic(i64)] _), (7 : @[intrinsic(string)] _)))",
+                Class::Rejected,
+            ),
+            | 2 => Content::plain("two-debugs", "(@[debug] 1, (@[debug] \"d\", @[debug] ()))", Class::Closed),
+            | 3 => Content::plain("hole-and-tyerr", "(_, (\"c\" : @[intrinsic(i64)] _))", Class::Rejected),
+            | _ => Content::plain("typed-holes", "((_ : @[intrinsic(i64)] _), (_ : @[intrinsic(string)] _))", Class::Rejected),
+        },
+        | 19 => Content {
+            name: "import3".into(),
+            template: "(@[import({0})] _, (@[import({1})] _, @[import({2})] _))".into(),
+            imports: vec![import_of(rng, holder, palette), import_of(rng, holder, palette), import_of(rng, holder, palette)],
+            class: Class::Closed,
+        },
+        | 20 => executable(&format!("exec{literal}"), &literal.to_string(), vec![], false),
+        | 21 => executable("exec-import", "@[import({0})] _", vec![import_of(rng, holder, palette)], false),
         | _ => executable(&format!("exec-missing-arm{literal}"), &literal.to_string(), vec![], true),
     }
 }
@@ -337,6 +356,18 @@ fn executable(name: &str, code: &str, imports: Vec<ImportRef>, missing_arm: bool
         imports,
         class: Class::Executable,
     }
+}
+
+/// A content importing exactly these targets, in order (used by the enumerated graph family).
+pub fn importing_all(targets: &[(usize, Spelling)]) -> Content {
+    let imports: Vec<ImportRef> =
+        targets.iter().map(|(slot, spelling)| ImportRef { slot: *slot, spelling: spelling.clone() }).collect();
+    let template = match imports.len() {
+        | 0 => "1".to_string(),
+        | 1 => "@[import({0})] _".to_string(),
+        | n => format!("({})", (0..n).map(|i| format!("@[import({{{i}}})] _")).collect::<Vec<_>>().join(", ")),
+    };
+    Content { name: format!("imports{}", imports.len()), template, imports, class: Class::Closed }
 }
 
 /// A content with a forced import list (used to plant cycles).
